@@ -17,7 +17,7 @@ class PreludeMixin:
                 'float', 'bool', 'isinstance', 'all', 'any', 'zip', 'enumerate', 'reversed', 'sum', 'abs', 'round',
                 'getattr', 'pow', 'iter', 'next', 'type', 'repr', 'print', 'frozenset', 'hasattr'}
     SPEC_BUILTINS = {'vec_le', 'vec_ge', 'vec_lt', 'vec_eq', 'vec_zero', 'dom', 'is_none', 'to_real', 'length',
-                     'keys_subset', 'str_to_int', 'alive', 'in_prefix', 'name_of', 'str_of', 'clock_now', 'eps', 'rdiv', 'is_int', 'ext', 'fs_kind', 'fs_target', 'path', 'fs_content', 'fs_ctime', 'yaml_of', 'zk_path', 'dict_update_opt', 'dict_put', 'dict_del', 'set_put', 'set_del', 'counter_inc', 'is_digits', 'select', 'strlen', 'cls_is', 'distinct_list'}
+                     'keys_subset', 'str_to_int', 'alive', 'in_prefix', 'name_of', 'str_of', 'clock_now', 'eps', 'rdiv', 'is_int', 'ext', 'fs_kind', 'fs_target', 'path', 'fs_content', 'fs_ctime', 'yaml_of', 'zk_path', 'str_fn', 'zk_exists', 'zk_owner', 'zk_content', 'dict_update_opt', 'dict_put', 'dict_del', 'set_put', 'set_del', 'counter_inc', 'is_digits', 'select', 'strlen', 'cls_is', 'distinct_list'}
     LIB_CONSTS = {'errno.ENOENT': 2, 'errno.EEXIST': 17, 'errno.EINVAL': 22, 'sys.maxsize': 9223372036854775807, 'np.inf': INF, 'numpy.inf': INF, 'math.inf': INF}
     LIB_MODULES_ALIAS = {}
     LIB_MODULES = {'six.moves', 'os.path', 'six.moves.urllib', 'np.random'}
@@ -1179,6 +1179,12 @@ class PreludeMixin:
             return ops.set_discard(args[0], args[1])
         if name == 'counter_inc':
             return ops.counter_add(args[0], args[1], lift(args[2], KInt).z)
+        if name == 'str_fn':
+            # a named uninterpreted function on strings (e.g. the instance name of a container's unique name)
+            key = ('$str_fn', args[0], len(args) - 1)
+            if key not in self.recfuncs:
+                self.recfuncs[key] = z3.Function('str_fn_' + args[0], *([z3.StringSort()] * (len(args) - 1) + [z3.StringSort()]))
+            return SVal(KStr, [self.recfuncs[key](*[lift(a, KStr).z for a in args[1:]])])
         if name == 'zk_path':
             # the term treadmill.zknamespace.path.<kind>(...) evaluates to in the code under contract
             return self.opaque_term('opaque.treadmill.zknamespace.path.' + args[0], list(args[1:]))
@@ -1197,6 +1203,8 @@ class PreludeMixin:
                 base = SVal(base.kind.inner, base.t[1:])
             upd = self.dict_update(st, base, SVal(other.kind.inner, other.t[1:]))
             return ops.ite(other.t[0], base, upd)
+        if name in ('zk_exists', 'zk_owner', 'zk_content'):
+            return self.zk_spec(st, name, args)
         if name in ('fs_kind', 'fs_target', 'path', 'fs_content', 'fs_ctime'):
             return self.fs_spec(st, name, args)
         if name == 'ext':
